@@ -183,21 +183,25 @@ func runBC(c bcCase) outcome {
 		finished := make(chan struct{})
 		go func() { done.Wait(); close(finished) }()
 		start.Done()
-		last, lastChange := progress.Load(), time.Now()
+		// idle ticks are counted, not wall time: a process that is frozen or starved for a while accumulates no ticks
+		last, idle := progress.Load(), 0
+		ticker := time.NewTicker(200 * time.Millisecond)
 	wait:
 		for {
 			select {
 			case <-finished:
 				break wait
-			case <-time.After(200 * time.Millisecond):
+			case <-ticker.C:
 				if p := progress.Load(); p != last {
-					last, lastChange = p, time.Now()
-				} else if time.Since(lastChange) > 15*time.Second {
+					last, idle = p, 0
+				} else if idle++; idle >= 75 {
+					ticker.Stop()
 					o.Err = fmt.Errorf("round %d: %d callers over %d overlapping absent keys: no loader was entered or left and no call returned for 15 s although calls are outstanding (in-flight records: %d) - a cycle of waiters, the calls never return", r, c.Callers, c.Keys, cache.VerifInFlightCalls())
 					return o
 				}
 			}
 		}
+		ticker.Stop()
 	}
 	if s := bad.Load(); s != nil {
 		o.Err = fmt.Errorf("%s", *s)
